@@ -1,17 +1,248 @@
 /-
-  Property C17 — PLACEHOLDER while the full theorem file (lean/stmts/C17.lean.txt) is being proved.
+  Property C17 — only current operators act via the operators contract; calls are forwarded intact.
+  Statements are FIXED: prove them exactly as stated (helper lemmas go above them or in Cgp/Proofs/C17.lean).
 -/
 import Cgp.Operators
 namespace Cgp.Props.C17
 open Cgp Cgp.Xdr Cgp.Operators
 
-theorem forward_exact {τ : Type} (tgt : Target τ) (self : Addr) (st : State) (ts ts' : τ) (auths : List Addr) (o c : Addr) (f : Bytes)
+variable {τ : Type} (tgt : Target τ)
+
+/-- a call is forwarded exactly when the caller is a member NOW, has authorised the call, and the target accepts it -/
+theorem execute_iff (self : Addr) (st : State) (ts : τ) (auths : List Addr) (o c : Addr) (f : Bytes) (args : List ScVal) :
+    (∃ r, execute tgt self st ts auths o c f args = .ok r) ↔
+      (o ∈ auths ∧ st.isOp o = true ∧ ∃ r, tgt ts ⟨c, f, args, self⟩ = some r) := by
+  unfold execute
+  by_cases h1 : o ∈ auths
+  · cases h2 : st.isOp o
+    · simp [h1]
+    · cases h3 : tgt ts ⟨c, f, args, self⟩ with
+      | none => simp [h1]
+      | some r => obtain ⟨a, b⟩ := r; simp [h1]
+  · simp [h1]
+
+/-- forwarding is exact: the target sees exactly the named contract, function and arguments (with the operators
+    contract as the caller), once, and its post-state and return value are handed back unchanged -/
+theorem forward_exact (self : Addr) (st : State) (ts ts' : τ) (auths : List Addr) (o c : Addr) (f : Bytes)
     (args : List ScVal) (v : ScVal)
     (h : execute tgt self st ts auths o c f args = .ok (ts', v)) :
     tgt ts ⟨c, f, args, self⟩ = some (ts', v) := by
   unfold execute at h
-  split at h <;> try simp at h
-  split at h <;> try simp at h
-  split at h <;> simp_all
+  by_cases h1 : o ∈ auths
+  · cases h2 : st.isOp o
+    · simp [h1, h2] at h
+    · cases h3 : tgt ts ⟨c, f, args, self⟩ with
+      | none => simp [h1, h2, h3] at h
+      | some r =>
+        obtain ⟨a, b⟩ := r
+        simp [h1, h2, h3] at h
+        simp [h.1, h.2]
+  · simp [h1] at h
+
+/-- if the target fails the whole call fails and nothing changes (neither the operators contract nor the target) -/
+theorem target_failure_aborts (w : World τ) (auths : List Addr) (o c : Addr) (f : Bytes) (args : List ScVal)
+    (h : tgt w.ts ⟨c, f, args, w.self⟩ = none) :
+    (step tgt w (.execute auths o c f args)).1 = w ∧ ∃ e, (step tgt w (.execute auths o c f args)).2 = .err e := by
+  simp only [step, execute, h]
+  by_cases h1 : o ∈ auths
+  · cases h2 : w.st.isOp o <;> simp [h1]
+  · simp [h1]
+
+/-- a non-member, or a member who has not authorised the call, never reaches the target: the target state is untouched -/
+theorem unauthorised_never_forwards (w : World τ) (auths : List Addr) (o c : Addr) (f : Bytes) (args : List ScVal)
+    (h : o ∉ auths ∨ w.st.isOp o = false) :
+    (step tgt w (.execute auths o c f args)).1 = w ∧ ∃ e, (step tgt w (.execute auths o c f args)).2 = .err e := by
+  simp only [step, execute]
+  by_cases h1 : o ∈ auths
+  · cases h2 : w.st.isOp o
+    · simp [h1]
+    · simp [h1, h2] at h
+  · simp [h1]
+
+theorem add_iff (st : State) (auths : List Addr) (a : Addr) :
+    (∃ r, addOperator st auths a = .ok r) ↔ (st.owner ∈ auths ∧ st.isOp a = false) := by
+  unfold addOperator
+  by_cases h1 : st.owner ∈ auths
+  · cases h2 : st.isOp a <;> simp [h1]
+  · simp [h1]
+
+theorem remove_iff (st : State) (auths : List Addr) (a : Addr) :
+    (∃ r, removeOperator st auths a = .ok r) ↔ (st.owner ∈ auths ∧ st.isOp a = true) := by
+  unfold removeOperator
+  by_cases h1 : st.owner ∈ auths
+  · cases h2 : st.isOp a <;> simp [h1]
+  · simp [h1]
+
+theorem add_effect (st st' : State) (auths : List Addr) (a : Addr) (evs : List Event)
+    (h : addOperator st auths a = .ok (st', evs)) :
+    st'.isOp a = true ∧ (∀ x, x ≠ a → st'.isOp x = st.isOp x) ∧ st'.owner = st.owner ∧ evs.length = 1 := by
+  unfold addOperator at h
+  by_cases h1 : st.owner ∈ auths
+  · cases h2 : st.isOp a
+    · simp [h1, h2] at h
+      obtain ⟨hs, he⟩ := h
+      subst hs; subst he
+      refine ⟨by simp, ?_, rfl, rfl⟩
+      intro x hx; simp [hx]
+    · simp [h1, h2] at h
+  · simp [h1] at h
+
+theorem remove_effect (st st' : State) (auths : List Addr) (a : Addr) (evs : List Event)
+    (h : removeOperator st auths a = .ok (st', evs)) :
+    st'.isOp a = false ∧ (∀ x, x ≠ a → st'.isOp x = st.isOp x) ∧ st'.owner = st.owner ∧ evs.length = 1 := by
+  unfold removeOperator at h
+  by_cases h1 : st.owner ∈ auths
+  · cases h2 : st.isOp a
+    · simp [h1, h2] at h
+    · simp [h1, h2] at h
+      obtain ⟨hs, he⟩ := h
+      subst hs; subst he
+      refine ⟨by simp, ?_, rfl, rfl⟩
+      intro x hx; simp [hx]
+  · simp [h1] at h
+
+/-- membership of `a` implied by a history: the last successful add/remove of `a` decides, else the initial value -/
+def memberAfter (a : Addr) (init : Bool) : List Op → List Obs → Bool
+  | (.add _ x) :: ops, (.ok _) :: os => memberAfter a (if x = a then true else init) ops os
+  | (.remove _ x) :: ops, (.ok _) :: os => memberAfter a (if x = a then false else init) ops os
+  | _ :: ops, _ :: os => memberAfter a init ops os
+  | _, _ => init
+
+/-- **membership = history**: after any history the set is exactly what the successful adds and removes imply -/
+theorem membership_history (w : World τ) (ops : List Op) (a : Addr) :
+    (run tgt w ops).1.st.isOp a = memberAfter a (w.st.isOp a) ops (run tgt w ops).2 := by
+  induction ops generalizing w with
+  | nil => simp [run, memberAfter]
+  | cons op ops ih =>
+    simp only [run]
+    rw [ih]
+    cases op with
+    | add au x =>
+      simp only [step]
+      cases hA : addOperator w.st au x with
+      | error e => simp [memberAfter]
+      | ok r =>
+        obtain ⟨st', evs⟩ := r
+        have := add_effect _ _ _ _ _ hA
+        simp only [memberAfter]
+        by_cases hx : x = a
+        · subst hx; simp [this.1]
+        · simp [hx, this.2.1 a (Ne.symm hx)]
+    | remove au x =>
+      simp only [step]
+      cases hA : removeOperator w.st au x with
+      | error e => simp [memberAfter]
+      | ok r =>
+        obtain ⟨st', evs⟩ := r
+        have := remove_effect _ _ _ _ _ hA
+        simp only [memberAfter]
+        by_cases hx : x = a
+        · subst hx; simp [this.1]
+        · simp [hx, this.2.1 a (Ne.symm hx)]
+    | transferOwnership au n =>
+      simp only [step, transferOwnership]
+      by_cases h1 : w.st.owner ∈ au <;> simp [h1, memberAfter]
+    | execute au o c f args =>
+      simp only [step]
+      cases hA : execute tgt w.self w.st w.ts au o c f args with
+      | error e => simp [memberAfter]
+      | ok r => obtain ⟨ts', v⟩ := r; simp [memberAfter]
+
+/-- the set changes only by the owner's authorised add of an absent address or remove of a present one -/
+theorem set_changes_only_by_owner (w : World τ) (op : Op) (a : Addr)
+    (h : (step tgt w op).1.st.isOp a ≠ w.st.isOp a) :
+    (∃ auths, op = .add auths a ∧ w.st.owner ∈ auths ∧ w.st.isOp a = false) ∨
+    (∃ auths, op = .remove auths a ∧ w.st.owner ∈ auths ∧ w.st.isOp a = true) := by
+  cases op with
+  | add au x =>
+    simp only [step] at h
+    cases hA : addOperator w.st au x with
+    | error e => simp [hA] at h
+    | ok r =>
+      obtain ⟨st', evs⟩ := r
+      have he := add_effect _ _ _ _ _ hA
+      have hi := (add_iff w.st au x).1 ⟨_, hA⟩
+      simp only [hA] at h
+      by_cases hx : x = a
+      · subst hx; exact Or.inl ⟨au, rfl, hi.1, hi.2⟩
+      · exact absurd (he.2.1 a (Ne.symm hx)) h
+  | remove au x =>
+    simp only [step] at h
+    cases hA : removeOperator w.st au x with
+    | error e => simp [hA] at h
+    | ok r =>
+      obtain ⟨st', evs⟩ := r
+      have he := remove_effect _ _ _ _ _ hA
+      have hi := (remove_iff w.st au x).1 ⟨_, hA⟩
+      simp only [hA] at h
+      by_cases hx : x = a
+      · subst hx; exact Or.inr ⟨au, rfl, hi.1, hi.2⟩
+      · exact absurd (he.2.1 a (Ne.symm hx)) h
+  | transferOwnership au n =>
+    simp only [step, transferOwnership] at h
+    by_cases h1 : w.st.owner ∈ au <;> simp [h1] at h
+  | execute au o c f args =>
+    simp only [step] at h
+    cases hA : execute tgt w.self w.st w.ts au o c f args with
+    | error e => simp [hA] at h
+    | ok r => obtain ⟨ts', v⟩ := r; simp [hA] at h
+
+/-- forwarding never changes the operators contract's own state; only `execute` can change the target's -/
+theorem execute_keeps_state (w : World τ) (auths : List Addr) (o c : Addr) (f : Bytes) (args : List ScVal) :
+    (step tgt w (.execute auths o c f args)).1.st = w.st ∧ (step tgt w (.execute auths o c f args)).1.self = w.self := by
+  simp only [step]
+  cases hA : execute tgt w.self w.st w.ts auths o c f args with
+  | error e => simp
+  | ok r => obtain ⟨ts', v⟩ := r; simp
+
+theorem target_touched_only_by_execute (w : World τ) (op : Op) (h : (step tgt w op).1.ts ≠ w.ts) :
+    ∃ auths o c f args, op = .execute auths o c f args ∧ o ∈ auths ∧ w.st.isOp o = true := by
+  cases op with
+  | add au x =>
+    simp only [step] at h
+    cases hA : addOperator w.st au x with
+    | error e => simp [hA] at h
+    | ok r => obtain ⟨st', evs⟩ := r; simp [hA] at h
+  | remove au x =>
+    simp only [step] at h
+    cases hA : removeOperator w.st au x with
+    | error e => simp [hA] at h
+    | ok r => obtain ⟨st', evs⟩ := r; simp [hA] at h
+  | transferOwnership au n =>
+    simp only [step] at h
+    cases hA : transferOwnership w.st au n with
+    | error e => simp [hA] at h
+    | ok r => obtain ⟨st', evs⟩ := r; simp [hA] at h
+  | execute au o c f args =>
+    simp only [step] at h
+    cases hA : execute tgt w.self w.st w.ts au o c f args with
+    | error e => simp [hA] at h
+    | ok r =>
+      have hi := (execute_iff tgt w.self w.st w.ts au o c f args).1 ⟨_, hA⟩
+      exact ⟨au, o, c, f, args, rfl, hi.1, hi.2.1⟩
+
+theorem rejected_unchanged (w : World τ) (op : Op) (e : Err) (h : (step tgt w op).2 = .err e) :
+    (step tgt w op).1 = w := by
+  cases op with
+  | add au x =>
+    simp only [step] at h ⊢
+    cases hA : addOperator w.st au x with
+    | error e => simp
+    | ok r => obtain ⟨st', evs⟩ := r; simp [hA] at h
+  | remove au x =>
+    simp only [step] at h ⊢
+    cases hA : removeOperator w.st au x with
+    | error e => simp
+    | ok r => obtain ⟨st', evs⟩ := r; simp [hA] at h
+  | transferOwnership au n =>
+    simp only [step] at h ⊢
+    cases hA : transferOwnership w.st au n with
+    | error e => simp
+    | ok r => obtain ⟨st', evs⟩ := r; simp [hA] at h
+  | execute au o c f args =>
+    simp only [step] at h ⊢
+    cases hA : execute tgt w.self w.st w.ts au o c f args with
+    | error e => simp
+    | ok r => obtain ⟨ts', v⟩ := r; simp [hA] at h
 
 end Cgp.Props.C17
